@@ -546,4 +546,165 @@ theorem subGo_spec (mul : Option Nat) (hm : mulOf mul < B64) : ∀ (xs ys : Limb
     rw [Nat.pow_succ]
     exact sub_step _ _ _ _ _ _ _ _ _ _ _ s1 e1
 
+theorem quot_rem_unique (X Y Q R : Nat) (h : X = Q * Y + R) (hR : R < Y) : X / Y = Q ∧ X % Y = R := by
+  have hd : X / Y = Q := by
+    apply Nat.div_eq_of_lt_le
+    · omega
+    · rw [Nat.add_mul, Nat.one_mul]; omega
+  refine ⟨hd, ?_⟩
+  have := Nat.div_add_mod X Y
+  rw [hd, Nat.mul_comm] at this
+  omega
+
+theorem q_small (q yn1 xm1 : Nat) (hqd : q * (yn1 + 1) ≤ xm1) (hxm : xm1 < B64) (hy57 : 2 ^ 57 ≤ yn1) :
+    q + 1 ≤ yn1 := by
+  have h1 : q * 2 ^ 57 ≤ q * (yn1 + 1) := Nat.mul_le_mul_left _ (by omega)
+  have hB : B64 = 2 ^ 7 * 2 ^ 57 := by unfold B64; norm_num
+  have : q * 2 ^ 57 < 2 ^ 7 * 2 ^ 57 := by omega
+  have := Nat.lt_of_mul_lt_mul_right this
+  have h7 : (2 : Nat) ^ 7 = 128 := by norm_num
+  have h57 : (2 : Nat) ^ 57 = 144115188075855872 := by norm_num
+  omega
+
+theorem mulOf_none_lt : mulOf none < B64 := by
+  show 1 < B64
+  unfold B64; norm_num
+
+theorem getLast_snoc (xs : Limbs) (a : Nat) : (xs ++ [a]).getLast?.getD 0 = a := by simp
+
+/-- one pass `x − m·y` of `large_quorem` when `m·y ≤ x` -/
+theorem sub_pass (mul : Option Nat) (hm : mulOf mul < B64) {x y : Limbs} (hl : x.length = y.length)
+    (ox : LimbsOk x) (oy : LimbsOk y) (hle : mulOf mul * valL y ≤ valL x) :
+    Normalized (normalizeL (subGo mul x y 0 0)) ∧
+    valL (normalizeL (subGo mul x y 0 0)) + mulOf mul * valL y = valL x ∧
+    (normalizeL (subGo mul x y 0 0)).length ≤ x.length := by
+  obtain ⟨k, e1, e2, e3⟩ := subGo_spec mul hm x y 0 0 hl ox oy (by omega) B64_pos
+  obtain ⟨n1, n2, n3⟩ := normalizeL_spec _ _ rfl e3
+  have hs := valL_lt e3
+  have hxlt := valL_lt ox
+  rw [e2] at hs n3
+  refine ⟨n1, ?_, n3⟩
+  rw [n2]
+  generalize B64 ^ x.length = Bn at *
+  have hk : k = 0 := by
+    apply Classical.byContradiction; intro hk
+    have : Bn * 1 ≤ Bn * k := Nat.mul_le_mul_left _ (by omega)
+    omega
+  rw [hk] at e1; omega
+
+/-- **`large_quorem`**: for a divisor whose top limb is at least `2^57` (and not all ones) the single-limb quotient
+estimate `x_top / (y_top + 1)` is the true quotient or one less, and the one correction step makes it exact -/
+theorem largeQuoremL_spec {x ys : Limbs} {yn1 : Nat} (hx : Normalized x) (hy : Normalized (ys ++ [yn1]))
+    (hlen : x.length ≤ ys.length + 1) (hy57 : 2 ^ 57 ≤ yn1) (hyB : yn1 + 1 < B64) :
+    ∃ R, largeQuoremL x (ys ++ [yn1]) = some (valL x / valL (ys ++ [yn1]), R) ∧ Normalized R ∧
+      valL R = valL x % valL (ys ++ [yn1]) := by
+  have hyne : ys ++ [yn1] ≠ [] := by simp
+  have hYge := valL_ge hy hyne
+  have hylen : (ys ++ [yn1]).length = ys.length + 1 := by simp
+  rw [hylen, Nat.add_sub_cancel] at hYge
+  have hemp : (ys ++ [yn1]).isEmpty = false := by simp
+  unfold largeQuoremL
+  rw [hemp]
+  simp only [Bool.false_eq_true, if_false]
+  rw [if_neg (by rw [hylen]; omega)]
+  by_cases hlt : x.length < ys.length + 1
+  · rw [if_pos (by rw [hylen]; exact hlt)]
+    have hX : valL x < valL (ys ++ [yn1]) := by
+      have h1 := valL_lt hx.1
+      have : B64 ^ x.length ≤ B64 ^ ys.length := Nat.pow_le_pow_right B64_pos (by omega)
+      omega
+    exact ⟨x, by rw [Nat.div_eq_of_lt hX], hx, (Nat.mod_eq_of_lt hX).symm⟩
+  · rw [if_neg (by rw [hylen]; exact hlt)]
+    have hxl : x.length = ys.length + 1 := by omega
+    rcases eq_nil_or_snoc x with h0 | ⟨xs, xm1, rfl⟩
+    · subst h0; simp at hxl
+    simp only [List.length_append, List.length_singleton, Nat.add_right_cancel_iff] at hxl
+    rw [getLast_snoc, getLast_snoc]
+    have hw : wrap64 (yn1 + 1) = yn1 + 1 := Nat.mod_eq_of_lt hyB
+    rw [hw, if_neg (by omega)]
+    obtain ⟨oxs, oxm⟩ := limbsOk_append.mp hx.1
+    obtain ⟨oys, _⟩ := limbsOk_append.mp hy.1
+    have hxm : xm1 < B64 := oxm xm1 (by simp)
+    have hXs := valL_lt oxs
+    have hYs := valL_lt oys
+    rw [hxl] at hXs
+    have hXv : valL (xs ++ [xm1]) = valL xs + B64 ^ ys.length * xm1 := by rw [valL_append, hxl]
+    have hYv : valL (ys ++ [yn1]) = valL ys + B64 ^ ys.length * yn1 := valL_append _ _
+    generalize hq : xm1 / (yn1 + 1) = q at *
+    generalize hBn : B64 ^ ys.length = Bn at *
+    have hBnpos : 0 < Bn := by rw [← hBn]; exact Nat.pow_pos B64_pos
+    have hqd : q * (yn1 + 1) ≤ xm1 := by rw [← hq]; exact Nat.div_mul_le_self _ _
+    have hqd2 : xm1 < (q + 1) * (yn1 + 1) := by
+      rw [← hq, Nat.mul_comm]; exact Nat.lt_mul_div_succ _ (by omega)
+    have hqB : q < B64 := by
+      have : q * 1 ≤ q * (yn1 + 1) := Nat.mul_le_mul_left _ (by omega)
+      omega
+    have hq7 : q + 1 ≤ yn1 := q_small q yn1 xm1 hqd hxm hy57
+    generalize hX : valL (xs ++ [xm1]) = X at *
+    generalize hY : valL (ys ++ [yn1]) = Y at *
+    -- `q·Y ≤ X < (q+2)·Y`
+    have hqY : q * Y ≤ X := by
+      have h1 : q * Y ≤ q * (Bn * (yn1 + 1)) := Nat.mul_le_mul_left _ (by rw [hYv, Nat.mul_add, Nat.mul_one]; omega)
+      have h2 : q * (Bn * (yn1 + 1)) = Bn * (q * (yn1 + 1)) := by ring
+      have h3 : Bn * (q * (yn1 + 1)) ≤ Bn * xm1 := Nat.mul_le_mul_left _ hqd
+      omega
+    have hX2 : X < (q + 2) * Y := by
+      have h1 : X < Bn * (xm1 + 1) := by rw [hXv, Nat.mul_add, Nat.mul_one]; omega
+      have h2 : Bn * (xm1 + 1) ≤ Bn * ((q + 1) * (yn1 + 1)) := Nat.mul_le_mul_left _ hqd2
+      have h3 : (q + 1) * (yn1 + 1) ≤ (q + 2) * yn1 := by
+        have : (q + 1) * (yn1 + 1) = (q + 1) * yn1 + (q + 1) := by ring
+        have : (q + 2) * yn1 = (q + 1) * yn1 + yn1 := by ring
+        omega
+      have h4 : Bn * ((q + 1) * (yn1 + 1)) ≤ Bn * ((q + 2) * yn1) := Nat.mul_le_mul_left _ h3
+      have h5 : Bn * ((q + 2) * yn1) ≤ (q + 2) * Y := by
+        have : (q + 2) * (Bn * yn1) ≤ (q + 2) * Y := Nat.mul_le_mul_left _ (by rw [hYv]; omega)
+        have : Bn * ((q + 2) * yn1) = (q + 2) * (Bn * yn1) := by ring
+        omega
+      omega
+    have hXB : X < Bn * B64 := by
+      have : Bn * (xm1 + 1) ≤ Bn * B64 := Nat.mul_le_mul_left _ hxm
+      rw [hXv, Nat.mul_add, Nat.mul_one] at *
+      omega
+    -- the first pass
+    obtain ⟨x1, hx1def, nx1, vx1, lx1⟩ : ∃ x1, (if q ≠ 0 then normalizeL (subGo (some q) (xs ++ [xm1]) (ys ++ [yn1]) 0 0)
+        else xs ++ [xm1]) = x1 ∧ Normalized x1 ∧ valL x1 + q * Y = X ∧ x1.length ≤ ys.length + 1 := by
+      by_cases hq0 : q = 0
+      · rw [if_neg (by simpa using hq0)]
+        exact ⟨_, rfl, hx, by rw [hX, hq0]; omega, by simp [hxl]⟩
+      · rw [if_pos hq0]
+        obtain ⟨n1, n2, n3⟩ := sub_pass (some q) hqB (x := xs ++ [xm1]) (y := ys ++ [yn1]) (by simp [hxl]) hx.1 hy.1
+          (by rw [hX, hY]; exact hqY)
+        rw [hX, hY] at n2
+        exact ⟨_, rfl, n1, n2, by simpa [hxl] using n3⟩
+    rw [hx1def]
+    rw [compareL_spec nx1 hy, hY]
+    have hX1 : valL x1 < 2 * Y := by
+      have : (q + 2) * Y = q * Y + 2 * Y := by ring
+      omega
+    by_cases hge : Y ≤ valL x1
+    · have hcmp : compare (valL x1) Y ≠ .lt := by
+        intro h; have := Nat.compare_eq_lt.mp h; omega
+      rw [if_pos hcmp]
+      have hl1 : x1.length = ys.length + 1 := by
+        have := normalized_length_le hy nx1 (by rw [hY]; exact hge)
+        simp at this; omega
+      obtain ⟨n1, n2, n3⟩ := sub_pass none mulOf_none_lt (x := x1) (y := ys ++ [yn1]) (by simp [hl1]) nx1.1 hy.1
+        (by rw [hY]; show 1 * Y ≤ valL x1; omega)
+      rw [hY] at n2
+      have n2' : valL (normalizeL (subGo none x1 (ys ++ [yn1]) 0 0)) + Y = valL x1 := by
+        have : mulOf none * Y = Y := by show 1 * Y = Y; omega
+        omega
+      have hw2 : wrap64 (q + 1) = q + 1 := Nat.mod_eq_of_lt (by
+        have hB : B64 = 2 ^ 64 := rfl
+        rw [← hB]; omega)
+      obtain ⟨d1, d2⟩ := quot_rem_unique X Y (q + 1) (valL x1 - Y) (by
+        have : (q + 1) * Y = q * Y + Y := by ring
+        omega) (by omega)
+      refine ⟨_, by rw [hw2, d1], n1, ?_⟩
+      rw [d2]; omega
+    · have hcmp : compare (valL x1) Y = .lt := Nat.compare_eq_lt.mpr (by omega)
+      rw [if_neg (by simp [hcmp])]
+      obtain ⟨d1, d2⟩ := quot_rem_unique X Y q (valL x1) (by omega) (by omega)
+      exact ⟨_, by rw [d1], nx1, by rw [d2]⟩
+
 end LexVerif.Proof.Slow
